@@ -25,7 +25,7 @@ CHECKS = {
     ),
     "C14": dict(
         technique=ITER,
-        text="WellFormed(tree) is an invariant of IterProgram (TLC), the documented no-op calls are checked to return the identical object in the replay (action property NoOpIdentity in the model), and every real tree is judged WellFormed by TLC (TraceTree clause wf). The same holds in SqlProgram and MultiEngine (three engines, every preferred-engine option combination, no-op forms issued with options, engine-restricted functions nested in OR/NOT/containers must be refused). All 349 distinct relations built by the repository's own 82 tests (recorded by a pytest plugin, guard LSST_DAF_RELATION_VERIF) are judged by TLC as well, with a corrupt-one-field self-test showing the binding rejects. Behaviour spec IdJoin: join-identity relations of each of the three engines under 0-2 (thorough: 3) transfers, joined with a fixed operand of each engine on either side under every preferred-engine x backtrack x transfer option; TLC proves WF and content on the as-coded apply/backtrack rules, every state is replayed and the real tree judged by TLC (finding F28 - a transfer from an engine to itself - fixed, companion IdJoinKF28). IterProgram also runs with user-defined operations evaluated through apply_custom_unary_operation (IterCustom).",
+        text="WellFormed(tree) is an invariant of IterProgram (TLC), the documented no-op calls are checked to return the identical object in the replay (action property NoOpIdentity in the model), and every real tree is judged WellFormed by TLC (TraceTree clause wf). The same holds in SqlProgram and MultiEngine (three engines, every preferred-engine option combination, no-op forms issued with options, engine-restricted functions nested in OR/NOT/containers must be refused). All 349 distinct relations built by the repository's own 82 tests (recorded by a pytest plugin, guard LSST_DAF_RELATION_VERIF) are judged by TLC as well, with a corrupt-one-field self-test showing the binding rejects. Behaviour spec IdJoin: join-identity relations of each of the three engines under 0-2 (thorough: 3) transfers, joined with a fixed operand of each engine on either side under every preferred-engine x backtrack x transfer option; TLC proves WF and content on the as-coded apply/backtrack rules, every state is replayed and the real tree judged by TLC (finding F28 - a transfer from an engine to itself - fixed, companion IdJoinKF28). IterProgram also runs with user-defined operations evaluated through apply_custom_unary_operation (IterCustom). IdJoin's fixed operand is either a three-row leaf or a relation that is a join identity only by virtue of a zero-column projection of a one-row leaf (finding F30 - an iteration-engine relation inside a sql.Select marker - fixed, companion IdJoinKF30).",
         design_ref="§0.1, §6 C14",
         note="SQL engine + two iteration engines",
     ),
@@ -37,7 +37,7 @@ CHECKS = {
     ),
     "C18": dict(
         technique=ITER,
-        text="The laziness model Cost(tree) (payload iterations started by execute() and per iteration of the result) is checked by TLC against the documented promise (LazyPromise) in every state; the replay uses counting leaf payloads and compares real counts: lazy-only trees start nothing at execute() and at most one iteration per leaf occurrence per pass, eager operations never exceed the model, two passes give identical rows.",
+        text="The laziness model Cost(tree) (payload iterations started by execute() and per iteration of the result) is checked by TLC against the documented promise (LazyPromise) in every state; the replay uses counting leaf payloads and compares real counts: lazy-only trees start nothing at execute() and at most one iteration per leaf occurrence per pass, eager operations never exceed the model, two passes give identical rows. Invariant ExecOnce: whatever consumes its input at execute time (sort, deduplication, materialization, user-defined operations evaluated through apply_custom_unary_operation) does so at most once - execute() never starts more iterations of a leaf payload than the leaf has occurrences (configuration IterCustom puts user-defined operations above and below the eager built-ins; finding F29, fixed, companion IterKF29).",
         design_ref="§6 C18",
         note="counts below the model (early termination of slices) are counted as drift, not violations",
     ),
